@@ -441,6 +441,9 @@ Definition H_da15 (o : options) (m : model) : Prop :=
   relinv (dne_of m) (arel m) /\ da_decl (pc_of m) (algs m) (dne_of m) (eqs m)
   /\ da_nored (o_allow_der o) (algs m) (ders m) (dne_of m) (pc_of m) (arel m) (eqs m) = true.
 
+Definition H_elim15 (o : options) (m : model) : Prop :=
+  match o_elim o with Some ns => no_elim_state ns m = true | None => True end.
+
 (* the same seven passes as `passes o`, with the hypotheses of the square bookkeeping *)
 Definition passes15 (o : options) : list pass :=
   [ (o_rpe o, replace_exprs true, fun _ => True);
@@ -448,7 +451,7 @@ Definition passes15 (o : options) : list pass :=
     (o_eca o, elim_const_assignments, fun _ => True);
     (o_rpv o, replace_param_values, fun _ => True);
     (o_rcv o, replace_const_values, fun _ => True);
-    (elim_on o, elim_f o, fun _ => True);
+    (elim_on o, elim_f o, H_elim15 o);
     (o_da o, detect_aliases (o_allow_der o), H_da15 o) ].
 
 Lemma simplify_once_run15 o m : simplify_once o m = run (passes15 o) m.
@@ -473,7 +476,8 @@ Proof.
   apply Forall_cons.
   { intros m _ ND _ Hf. destruct (sq_rcv m Hf) as [S A]. split; auto. now rewrite A. }
   apply Forall_cons.
-  { intros m _ ND Hf Hf'. unfold elim_f in *. destruct (o_elim o) as [ns |]; [| split; [apply sq_refl | auto]].
+  { intros m Hn ND Hf Hf'. unfold elim_f, H_elim15 in *. destruct (o_elim o) as [ns |]; [| split; [apply sq_refl | auto]].
+    rewrite Hn in *.
     destruct (o_expand_mx o); [| simpl in Hf'; discriminate].
     destruct (square_eliminate_vars ns m ND Hf Hf') as [S1 [S2 [S3 [S4 _]]]].
     split; [unfold sq; rewrite S2; repeat split; auto; lia |].
